@@ -148,12 +148,16 @@ pub fn schema_pad_u128() {
     let (r, _) = ser_at(&v, 3, &mut plain);
     assert!(r.is_ok(), "[C01/ser.ok] serialization into an infallible sink succeeds");
     let mut rec = ArrSink::<48>::new();
-    let mut w = WriterWithPos::new(&mut rec);
-    let _ = w.write_all(&[0u8; 3]);
-    let mut sw = SchemaWriter::new(&mut w);
-    let rs = sw.write("ROOT", &v);
-    assert!(rs.is_ok(), "[C18/ok] serialization with schema recording succeeds");
-    let rows = sw.schema.0;
+    // the writers live in an inner scope: the sink is inspected only after they are gone
+    // (so that a writer with a destructor still compiles, and is observed after it ran)
+    let rows = {
+        let mut w = WriterWithPos::new(&mut rec);
+        let _ = w.write_all(&[0u8; 3]);
+        let mut sw = SchemaWriter::new(&mut w);
+        let rs = sw.write("ROOT", &v);
+        assert!(rs.is_ok(), "[C18/ok] serialization with schema recording succeeds");
+        sw.schema.0
+    };
     assert!(same_bytes(plain.bytes(), rec.bytes()), "[C18/same_bytes] recording writes byte-for-byte the plain stream");
     let nr = rows.len();
     assert!(nr == 3, "[C18/rows] ROOT, PADDING and the zero-copy block are recorded");
